@@ -212,7 +212,7 @@ def _inner_rs(missing_label, classes):
 
 
 SUBJECTS = [
-    Subject("RandomSampling", "RandomSampling", samplewise=True, select="max"),
+    Subject("RandomSampling", "RandomSampling", samplewise=True, select="sample"),
     Subject("UncertaintySampling[least_confident]", "UncertaintySampling", {"method": "least_confident"}, "pwc", samplewise=True),
     Subject("UncertaintySampling[margin_sampling]", "UncertaintySampling", {"method": "margin_sampling"}, "pwc", samplewise=True),
     Subject("UncertaintySampling[entropy]", "UncertaintySampling", {"method": "entropy"}, "pwc", samplewise=True),
